@@ -1,0 +1,165 @@
+//go:build verif
+
+// Copyright Istio Authors
+//
+// Licensed under the Apache License, Version 2.0 (the "License");
+// you may not use this file except in compliance with the License.
+// You may obtain a copy of the License at
+//
+//     http://www.apache.org/licenses/LICENSE-2.0
+//
+// Unless required by applicable law or agreed to in writing, software
+// distributed under the License is distributed on an "AS IS" BASIS,
+// WITHOUT WARRANTIES OR CONDITIONS OF ANY KIND, either express or implied.
+// See the License for the specific language governing permissions and
+// limitations under the License.
+
+package authn
+
+import (
+	"istio.io/api/security/v1beta1"
+	"istio.io/istio/pilot/pkg/model"
+	"istio.io/istio/pkg/config"
+	"istio.io/istio/pkg/verif"
+)
+
+// ---------------------------------------------------------------------------------------------
+// C10: the effective peer-authentication mode by precedence
+// ---------------------------------------------------------------------------------------------
+
+const (
+	paMesh = iota
+	paNamespace
+	paWorkload
+	paIgnored
+)
+
+func paSpec(c *config.Config) *v1beta1.PeerAuthentication {
+	s, _ := c.Spec.(*v1beta1.PeerAuthentication)
+	return s
+}
+
+// paLevel: the scope a policy applies at (selector-less in the root namespace: mesh; selector-less
+// elsewhere: namespace; with a selector outside the root namespace: workload).
+func paLevel(root string, c *config.Config) int {
+	s := paSpec(c)
+	if s.Selector == nil || len(s.Selector.MatchLabels) == 0 {
+		if c.Namespace == root {
+			return paMesh
+		}
+		return paNamespace
+	}
+	if c.Namespace != root {
+		return paWorkload
+	}
+	return paIgnored
+}
+
+// paWins: among the first n policies, configs[i] is the one that counts at its level: "oldest policy
+// winning within a level" (the first listed among equally old ones).
+func paWins(root string, configs []*config.Config, n int, lvl int, i int) bool {
+	return 0 <= i && i < n && i < len(configs) && paLevel(root, configs[i]) == lvl &&
+		verif.Forall(func(j int) bool {
+			if !(0 <= j && j < n && j < len(configs)) || paLevel(root, configs[j]) != lvl {
+				return true
+			}
+			return !configs[j].CreationTimestamp.Before(configs[i].CreationTimestamp) &&
+				(j >= i || configs[i].CreationTimestamp.Before(configs[j].CreationTimestamp))
+		})
+}
+
+func paNone(root string, configs []*config.Config, n int, lvl int) bool {
+	return verif.Forall(func(j int) bool { return !(0 <= j && j < n && j < len(configs)) || paLevel(root, configs[j]) != lvl })
+}
+
+// paPicked: c is what the first n policies select at level lvl (nil when there is none).
+func paPicked(root string, configs []*config.Config, n int, lvl int, c *config.Config) bool {
+	return (c == nil && paNone(root, configs, n, lvl)) ||
+		(c != nil && verif.Exists(func(i int) bool { return paWins(root, configs, n, lvl, i) && configs[i] == c }))
+}
+
+func paUnset(m *v1beta1.PeerAuthentication_MutualTLS) bool {
+	return m == nil || m.Mode == v1beta1.PeerAuthentication_MutualTLS_UNSET
+}
+
+func paInputsWellFormed(configs []*config.Config) bool {
+	return verif.Forall(func(i int) bool {
+		if !(0 <= i && i < len(configs)) {
+			return true
+		}
+		if configs[i] == nil {
+			return false
+		}
+		s, ok := configs[i].Spec.(*v1beta1.PeerAuthentication)
+		return ok && s != nil
+	})
+}
+
+// from the statement: "the effective peer-authentication mode is the one given by precedence (port-level
+// over workload-selector over namespace over mesh, oldest policy winning within a level, UNSET inheriting
+// from the next wider level, default PERMISSIVE)".
+//
+//verif:contract ComposePeerAuthentication
+//verif:prop C10
+func ctComposePeerAuthentication(rootNamespace string, configs []*config.Config, mesh, ns, wl *config.Config) {
+	verif.Requires("policies-are-peer-authentications", paInputsWellFormed(configs))
+	// mesh, ns, wl: the policies that count at each level (ghost parameters naming them)
+	verif.Requires("mesh-policy", paPicked(rootNamespace, configs, len(configs), paMesh, mesh))
+	verif.Requires("namespace-policy", paPicked(rootNamespace, configs, len(configs), paNamespace, ns))
+	verif.Requires("workload-policy", paPicked(rootNamespace, configs, len(configs), paWorkload, wl))
+	out := ComposePeerAuthentication(rootNamespace, configs)
+
+	// the mode inherited at each level, widest first
+	mode := model.MTLSPermissive
+	if mesh != nil && !paUnset(paSpec(mesh).Mtls) {
+		mode = model.ConvertToMutualTLSMode(paSpec(mesh).Mtls.Mode)
+	}
+	if ns != nil && !paUnset(paSpec(ns).Mtls) {
+		mode = model.ConvertToMutualTLSMode(paSpec(ns).Mtls.Mode)
+	}
+	if wl != nil && !paUnset(paSpec(wl).Mtls) {
+		mode = model.ConvertToMutualTLSMode(paSpec(wl).Mtls.Mode)
+	}
+	verif.Ensures("workload-over-namespace-over-mesh-default-permissive", out.Mode == mode)
+	if wl == nil || paSpec(wl).PortLevelMtls == nil {
+		verif.Ensures("no-port-level-without-a-workload-policy", out.PerPort == nil)
+		return
+	}
+	ports := paSpec(wl).PortLevelMtls
+	verif.Ensures("port-level-over-workload", verif.Forall(func(p uint32) bool {
+		m, has := ports[p]
+		got, in := out.PerPort[p]
+		if !has {
+			return !in
+		}
+		if paUnset(m) {
+			return in && got == mode
+		}
+		return in && got == model.ConvertToMutualTLSMode(m.Mode)
+	}))
+}
+
+//verif:invariant ComposePeerAuthentication 1
+func invComposeSelect(rootNamespace string, configs []*config.Config, meshCfg, namespaceCfg, workloadCfg *config.Config, rangeindex int) bool {
+	n := rangeindex + 1
+	return rangeindex < len(configs) &&
+		paPicked(rootNamespace, configs, n, paMesh, meshCfg) &&
+		paPicked(rootNamespace, configs, n, paNamespace, namespaceCfg) &&
+		paPicked(rootNamespace, configs, n, paWorkload, workloadCfg)
+}
+
+//verif:invariant ComposePeerAuthentication 2
+func invComposePorts(outputPolicy MergedPeerAuthentication, workloadPolicy *v1beta1.PeerAuthentication) bool {
+	ports := workloadPolicy.PortLevelMtls
+	return outputPolicy.PerPort != nil && verif.Fresh(outputPolicy.PerPort) && verif.Forall(func(p uint32) bool {
+		m, has := ports[p]
+		got, in := outputPolicy.PerPort[p]
+		if !(has && verif.Visited(ports, p)) {
+			return !in
+		}
+		if paUnset(m) {
+			return in && got == outputPolicy.Mode
+		}
+		return in && got == model.ConvertToMutualTLSMode(m.Mode)
+	})
+}
